@@ -16,7 +16,7 @@ PROP = "C14"
 LEVEL = "exploration"
 EXHAUSTIVE = False
 TIERS = {
-    "quick": {"runs": 320, "budget_s": 150, "chunk": 2, "max_shrink": 3, "shrink_each_s": 20, "shrink_budget_s": 60},
+    "quick": {"runs": 320, "budget_s": 200, "chunk": 2, "max_shrink": 3, "shrink_each_s": 20, "shrink_budget_s": 60},
     "thorough": {"runs": 14000, "budget_s": 3300, "chunk": 4, "max_shrink": 6, "shrink_each_s": 40, "shrink_budget_s": 300},
 }
 HIST_PER_WORLD = {"quick": 10, "thorough": 12}
